@@ -12,6 +12,7 @@
    Real time enters only as the Timeout event.  What a frame does (Notify i or Skip) is
    Model/PingFrame.v; its agreement with the RFC reading is in the frame theorems below. *)
 From PV Require Import Base.Prelude Model.Ping Model.PingTrace Model.PingFrame Model.PingScript Model.PingKnown.
+From PV Require Import Model.PingAbs Spec.PingSpec Proofs.PingRefine.
 From PV Require Import Spec.PingRFC Proofs.Ping Proofs.PingIff Proofs.PingMore Proofs.PingFrame Proofs.PingBulk Proofs.PingWrap.
 Open Scope N_scope.
 
@@ -238,3 +239,37 @@ Example C19_no_leak_nonvacuous :
             result_of s 0%nat = Some RTimeout /\ result_of s 1%nat = Some RNil /\ tbl s = [].
 Proof. exact no_leak_nonvacuous. Qed.
 Print Assumptions C19_no_leak_nonvacuous.
+
+(* ---------------------------------------------------------------------------------------- *)
+(* Refinement.  Spec/PingSpec.v is the property as a table-free reference machine (calls, marks,
+   outcomes; no table, no counter, no channels).  Every well-formed young history of the model is,
+   event by event ([abs_trace]: Begin p -> SBegin p id, Sent p false -> SFail p, Notify i ->
+   SReply i, End p -> SEnd p, everything else invisible), a run of the reference machine ending in
+   the abstraction of the model's state: same calls, same identifiers, same marks, same results.
+   With C19_frame_agree (Notify i <-> the frame is an echo reply for i) this makes the spec column
+   of the correspondence run (Extract/D19.v spec_obs) a theorem, not only a per-case comparison. *)
+Theorem C19_refines_partial : forall fx n tr s, n < 65536 ->
+  run fx (init n) tr = Ok s -> always fx young (init n) tr ->
+  (fx = true \/ known_C19_sendfail tr = false) ->
+  srun [] (abs_trace fx (init n) tr) = Some (absst s).
+Proof. exact refine_run. Qed.
+Print Assumptions C19_refines_partial.
+
+Theorem C19_result_abs : forall s p,
+  option_map c_out (sget (absst s) p) = option_map (fun pg => abs_out (p_phase pg)) (pget (pings s) p).
+Proof. exact result_abs. Qed.
+Print Assumptions C19_result_abs.
+
+(* the table has exactly as many entries as the reference says are needed *)
+Theorem C19_sizes_agree_partial : forall fx n tr s, n < 65536 ->
+  run fx (init n) tr = Ok s -> always fx young (init n) tr ->
+  (fx = true \/ known_C19_sendfail tr = false) ->
+  entries (absst s) = size s.
+Proof. exact sizes_agree. Qed.
+Print Assumptions C19_sizes_agree_partial.
+
+Example C19_refine_nonvacuous :
+  exists s, run false init_go ex_history = Ok s /\
+            srun [] (abs_trace false init_go ex_history) = Some (absst s) /\ entries (absst s) = size s.
+Proof. exact refine_nonvacuous. Qed.
+Print Assumptions C19_refine_nonvacuous.
